@@ -777,14 +777,14 @@ class Engine:
             except OSError:
                 pass
 
-    def concretize(self, st, e, what="value"):
+    def concretize(self, st, e, what="value", limit=4096):
         """Return list of all feasible concrete values of e (bounded)."""
         e = simp(e)
         if is_conc(e):
             return [e.as_long()]
         vals = []
         extra = []
-        while len(vals) < 4096:
+        while len(vals) < limit:
             r, m = self.check_sat(st.pc + extra)
             if r != "sat":
                 break
@@ -1406,7 +1406,14 @@ class Engine:
                 return [(st, None)]
             return [(st, name)]
         out = []
-        for cv in self.concretize(st, v, "indirect callee"):
+        try:
+            cands = self.concretize(st, v, "indirect callee", limit=256)
+        except Unsupported:
+            # the callee is read from memory nothing constrains (e.g. through a wild or null-based pointer): a wild call
+            st.status = "ub"
+            st.info = "indirect call through a pointer that is not determined by the program state: %s" % str(v)[:80]
+            return [(st, None)]
+        for cv in cands:
             s2 = st.copy()
             s2.pc.append(v == BV(cv, 64))
             name = self.addr2f.get(cv)
